@@ -361,15 +361,55 @@ def lockstep(corr: Corr, cases, canon_model=None, cmp=None, shards=1, timeout=30
     return corr
 
 
+CASE_TIMEOUT = int(os.environ.get("VERIF_CASE_TIMEOUT", "900"))
+
+
+class CaseTimeout(Exception):
+    """a generated case did not finish on the real code within CASE_TIMEOUT seconds (cases take seconds): the code under
+    test does not terminate on that input - a failing input, reported by ./check as a violation with the case as replay"""
+
+    def __init__(self, fn_name, items):
+        super().__init__(f"{len(items)} case(s) of {fn_name} did not finish within {CASE_TIMEOUT} s")
+        self.fn_name, self.items = fn_name, items
+
+
+class _Alarm(Exception):
+    pass
+
+
+def _guarded(arg):
+    import signal
+    fn, x = arg
+
+    def on_alarm(signum, frame):
+        raise _Alarm()
+
+    old = signal.signal(signal.SIGALRM, on_alarm)
+    signal.alarm(CASE_TIMEOUT)
+    try:
+        return ("ok", fn(x))
+    except _Alarm:
+        return ("timeout", x)
+    finally:
+        signal.alarm(0)
+        signal.signal(signal.SIGALRM, old)
+
+
 def pmap(fn, items, procs=None):
-    """process-parallel map (fork) for running the real code on many generated cases"""
+    """process-parallel map (fork) for running the real code on many generated cases; every case runs under a watchdog"""
     import multiprocessing as mp
     procs = procs or min(16, os.cpu_count() or 1)
+    args = [(fn, x) for x in items]
     if procs <= 1 or len(items) < 4:
-        return [fn(x) for x in items]
-    ctx = mp.get_context("fork")
-    with ctx.Pool(procs) as pool:
-        return pool.map(fn, items, chunksize=max(1, len(items) // (procs * 4)))
+        res = [_guarded(a) for a in args]
+    else:
+        ctx = mp.get_context("fork")
+        with ctx.Pool(procs) as pool:
+            res = pool.map(_guarded, args, chunksize=max(1, len(items) // (procs * 4)))
+    late = [r[1] for r in res if r[0] == "timeout"]
+    if late:
+        raise CaseTimeout(getattr(fn, "__qualname__", str(fn)), late)
+    return [r[1] for r in res]
 
 
 # ---------------------------------------------------------------- known findings
